@@ -208,6 +208,22 @@ CHECKS = {
         "runtime monitoring: differential oracle over output trees of repeated runs with schedule injection (hash seed, directory order, workers, history)",
         "3/C12",
     ),
+    "C20": (
+        "fault_enumeration",
+        "Runtime monitor on the real parser (Project + correlate in a forked child with a CPU-time limit) and on complete `python -m ford` "
+        "runs: a generated valid project is observed alone and together with 1-3 additional files made by corrupting valid sources - "
+        "truncation at every statement boundary of every donor file (thorough; a sample at quick), inside continued statements, mid-line; "
+        "complete unit followed by a truncated unit or garbage; dropped / doubled / leading / file-level END; doubled or file-level CONTAINS; "
+        "units never closed or never opened; undecodable, NUL, UTF-16, Latin-1 bytes; unbalanced quotes; arbitrary text; lone `&`; empty "
+        "files - named so that they are read before, between and after the valid files. Oracles: termination (SIGXCPU), no abort, every "
+        "file FORD does not register is named in a diagnostic, and when all additional files were skipped the entity table, the page name "
+        "of every entity and (CLI layer) the whole output tree equal the baseline's; for accepted files with foreign names the valid "
+        "files' tables equal the baseline's.",
+        "FORD's own verdict decides whether a file counts as rejected (only undecodable files must be rejected). One known finding: a "
+        "malformed file that the lenient default parser accepts can make correlate() raise and abort the run.",
+        "runtime monitoring: differential oracle (with / without the corrupted files) over entity tables, page names and output trees; CPU-limit watchdog",
+        "3/C20",
+    ),
     "C14": (
         "exploration",
         "Runtime monitor (metamorphic) on the real fixed-to-free converter + reader + parser: each generated program is written "
